@@ -229,6 +229,13 @@ func checkC19() int {
 			}
 			return d
 		}
+		if (o.Died() || o.PostDeath != "") && m.kind == "reused-environment" {
+			// on a reused environment a straggler of a run that the 50 ms heartbeat cancelled too
+			// early (starved goroutine on a loaded machine) continues under the next run's context
+			// and definitions; without the run results this cannot be told apart: inconclusive
+			c.Inconc("death-on-reused-environment(possible premature heartbeat)")
+			continue
+		}
 		if o.Died() || o.PostDeath != "" {
 			var texts []string
 			for _, k := range m.idx {
